@@ -1448,6 +1448,10 @@ static int dd_source_name(struct demangle_data *dd)
 				    strlen(rust_mappings[i].code)))
 				continue;
 
+			/* the escape must end inside this name */
+			if (dollar + strlen(rust_mappings[i].code) + 2 > end)
+				break;
+
 			dd_add_debug(dd);
 			/* skip "as TRAIT" */
 			if (strncmp(dollar, "$u20$as$u20$", 12) == 0) {
